@@ -117,6 +117,8 @@ def run(ctx):
                         srcs.add("const:" + str(payload["o"].get("k", ""))[-8:])
         if isinstance(l, int):
             collect(l)
+        elif p_d[0] == "call":
+            srcs.add(p_d[1].rsplit("::", 1)[-1])
         ctx.check("derivative" in srcs and all(s == "derivative" or "NO_MATCH" in s for s in srcs), "C04-R2", "transition_inner:pushes-the-derivative",
                   "the expression stored for the lexeme is its derivative (or NO_MATCH, which is then skipped)",
                   "transition_inner stores %s for a lexeme instead of its derivative" % sorted(srcs), site=ti.where(pb))
